@@ -6,14 +6,14 @@ pub trait VecZnxDftBytesOf { spec fn s_bytes_of_dft(&self, cols: int, size: int)
 pub trait VecZnxDftCopy<BE: Backend> {
     fn vec_znx_dft_copy<D: DataMut, A: VecZnxDftToRef<BE>>(&self, step: usize, offset: usize, res: &mut VecZnxDft<D, BE>, res_col: usize, a: &A, a_col: usize)
         requires res_col < old(res).cols, a_col < a.dref().cols, old(res).n == a.dref().n, step >= 1,
-        ensures final(res).n == old(res).n, final(res).cols == old(res).cols, final(res).size == old(res).size, final(res).max_size == old(res).max_size,
+        ensures final(res).n == old(res).n, final(res).cols == old(res).cols, final(res).size == old(res).size, final(res).max_size == old(res).max_size, final(res).rad == a.dref().rad,
             forall|j: int| 0 <= j < old(res).size ==> #[trigger] final(res).dep(res_col as int, j) == (if offset + j * step < a.dref().size { a.dref().dep(a_col as int, offset + j * step) } else { ISet::<Src>::empty() }),
             forall|i: int, j: int| (i != res_col || j < 0 || j >= old(res).size) ==> #[trigger] final(res).dep(i, j) == old(res).dep(i, j);
 }
 pub trait VecZnxDftAddAssign<BE: Backend> {
     fn vec_znx_dft_add_assign<D: DataMut, A: VecZnxDftToRef<BE>>(&self, res: &mut VecZnxDft<D, BE>, res_col: usize, a: &A, a_col: usize)
         requires res_col < old(res).cols, a_col < a.dref().cols, old(res).n == a.dref().n,
-        ensures final(res).n == old(res).n, final(res).cols == old(res).cols, final(res).size == old(res).size, final(res).max_size == old(res).max_size,
+        ensures final(res).n == old(res).n, final(res).cols == old(res).cols, final(res).size == old(res).size, final(res).max_size == old(res).max_size, final(res).rad == old(res).rad,
             forall|j: int| 0 <= j < old(res).size ==> #[trigger] final(res).dep(res_col as int, j) == (if j < a.dref().size { old(res).dep(res_col as int, j).union(a.dref().dep(a_col as int, j)) } else { old(res).dep(res_col as int, j) }),
             forall|i: int, j: int| (i != res_col || j < 0 || j >= old(res).size) ==> #[trigger] final(res).dep(i, j) == old(res).dep(i, j);
 }
@@ -31,7 +31,7 @@ pub trait VmpApplyDftToDft<BE: Backend>: VmpApplyDftToDftTmpBytes {
     fn vmp_apply_dft_to_dft<D: DataMut, A: VecZnxDftToRef<BE>, DP>(&self, res: &mut VecZnxDft<D, BE>, a: &A, pmat: &VmpPMat<DP, BE>, limb_offset: usize, scratch: &mut Scratch<BE>)
         requires old(res).n == pmat.n, a.dref().n == pmat.n, old(res).cols == pmat.cols_out, a.dref().cols == pmat.cols_in,
             old(scratch).avail >= self.s_vmp_tmp(old(res).size as int, a.dref().size as int, pmat.rows as int, pmat.cols_in as int, pmat.cols_out as int, pmat.size as int),
-        ensures final(res).n == old(res).n, final(res).cols == old(res).cols, final(res).size == old(res).size, final(res).max_size == old(res).max_size,
+        ensures final(res).n == old(res).n, final(res).cols == old(res).cols, final(res).size == old(res).size, final(res).max_size == old(res).max_size, final(res).rad == a.dref().rad,
             final(scratch).avail == old(scratch).avail,
             forall|i: int, j: int| 0 <= i < old(res).cols && 0 <= j < old(res).size ==> #[trigger] final(res).dep(i, j) ==
                 (if j + limb_offset < pmat.size { vmp_in(a.dref(), smin(a.dref().size as int, pmat.rows as int)).union(pmat.dep@) } else { ISet::<Src>::empty() }),
